@@ -401,7 +401,15 @@ def await_gather(ex, node, st):
     t = Int('t!ga')
     s2.assume(ForAll([t], Implies(tasks[t], s2.comp('task_done', BoolSort())[t])))
     ca = env_for_ctrl(ex, st, st.readz('_queue', me), me); ca.label('gather:cancelled')
-    return [(s2, P_NONE), (ca, Raise(PExc('CancelledError', val=Val.Obj(fresh('exc', IntSort())), where='callee')))]
+    outs = [(s2, P_NONE), (ca, Raise(PExc('CancelledError', val=Val.Obj(fresh('exc', IntSort())), where='callee')))]
+    import ast as _ast
+    collects = any(k.arg == 'return_exceptions' and isinstance(k.value, _ast.Constant) and k.value.value is True for k in getattr(node, 'keywords', []))
+    if not collects:
+        # without return_exceptions=True the first task that ends with an exception (an output task can: its set_output delivers on_output
+        # events, and a destination may fail) makes gather() raise at once, while the other tasks are still running
+        bad = env_for_ctrl(ex, st, st.readz('_queue', me), me); bad.label('gather:a_task_failed')
+        outs.append((bad, Raise(PExc('OtherException', val=Val.Obj(fresh('exc', IntSort())), where='callee'))))
+    return outs
 
 
 @contract('OutputAsync._ctrl_start', qual=Q + '_ctrl_start', modifies=WRAP_EFFECTS + ('dq_head',), self_cls='OutputAsync')
